@@ -184,6 +184,14 @@ SCOPES = {
         ops=["alter", "create", "createsf", "verify", "diff"], maxgens=4, maxops=6, keepsnap=False,
         mutable=[P("a"), P("d", "b")], patnames={"n:x": ["x"]},
     ),
+    # negation patterns: the last matching pattern decides, so the order in which patterns accumulate matters
+    "neg": dict(
+        fmts=["md5"], files=[P("a"), P("x"), P("d", "x"), P("d", "b")], dirs=[P("d")],
+        init={P("a"): "c1", P("x"): "c1", P("d"): "DIR", P("d", "x"): "c2", P("d", "b"): "c1"}, contents=["c1", "c2"],
+        roots=[P(), P("d")], fmtchoices=[["md5"]], pats=[(), ("n:x",), ("!n:x",), ("n:x", "!n:x"), ("!n:x", "n:x")], sf=[],
+        ops=["alter", "create", "verify", "diff", "verifydh"], maxgens=3, maxops=5, keepsnap=True,
+        mutable=[P("x"), P("d", "x")], patnames={"n:x": ["x"], "!n:x": ["x", "!neg"]},
+    ),
     # ignore patterns: a base-name pattern, a glob class, applied to files and a directory
     "ign": dict(
         fmts=["md5"], files=[P("a"), P("x"), P("k_t"), P("d", "x"), P("d", "b"), P("g", "c"), P("d", "dsstore")], dirs=[P("d"), P("g")],
